@@ -510,7 +510,10 @@ func callbackReenterScenario(a, b epCfg, what string) *Scenario {
 // start of every callback and at every quiescent point each stream's amount equals its accepted
 // and unacknowledged bytes, and each stream gets one callback per downward crossing of that
 // quantity - whatever is written from another stream's callback in between.
-func crossStreamScenario(a, b epCfg, nStreams int) *Scenario {
+func crossStreamScenario(a, b epCfg, nStreams int, unregister ...bool) *Scenario {
+	// unregister: instead of writing, every callback takes the next stream's handler away
+	// (OnBufferedAmountLow(nil)) - possibly between the SACK that drained both and the call
+	unreg := len(unregister) > 0 && unregister[0]
 	return &Scenario{
 		Name:    "cross-stream",
 		Horizon: 120 * time.Second,
@@ -577,6 +580,10 @@ func crossStreamScenario(a, b epCfg, nStreams int) *Scenario {
 					sample(fmt.Sprintf("in the callback of stream %d", x.s.streamIdentifier))
 					// write on the next stream, once
 					y := ss[(i+1)%len(ss)]
+					if unreg {
+						y.s.OnBufferedAmountLow(nil)
+						return
+					}
 					if !x.wrote {
 						x.wrote = true
 						_, _ = y.s.WriteSCTP(payload(y.s.streamIdentifier, 50+i, 2000), PayloadTypeWebRTCBinary)
@@ -595,6 +602,14 @@ func crossStreamScenario(a, b epCfg, nStreams int) *Scenario {
 			m.Sleep(2 * time.Second)
 			sample("at the end")
 			for _, x := range ss {
+				if unreg {
+					// (a handler taken away may or may not have been called for a crossing that
+					// was already decided; it is never called more often than there were crossings)
+					if x.callbacks > x.crossings {
+						m.Failf("callback.spurious", "stream %d: %d crossings, %d callbacks", x.s.streamIdentifier, x.crossings, x.callbacks)
+					}
+					continue
+				}
 				if x.callbacks != x.crossings {
 					m.Failf("callback.missing", "stream %d: its accepted and unacknowledged bytes crossed the threshold %d downwards %d times, the callback fired %d times (a write made from another stream's callback, while the same SACK was still being applied, hid a crossing)", x.s.streamIdentifier, th, x.crossings, x.callbacks)
 				}
